@@ -525,6 +525,9 @@ class Quantity:
                     else:
                         ret += "1 / "
 
+                else:
+                    ret += " * "
+
                 if exp != -1:
                     ret += f"({rep}) ** {abs(exp)}"
                 else:
@@ -565,6 +568,8 @@ class Quantity:
                         ret += "/"
                     else:
                         ret += "1/"
+                else:
+                    ret += "."
 
                 ret += unit
                 if exp != -1:
